@@ -419,3 +419,62 @@ def r9_counter(w):
         w.replace(h.start(), pc + 1, "counter_fetch_update(%s, Tracked(w))" % h.group(1), "R9",
                   "AtomicU32::fetch_update(|%s| %s) -> sequential-counter shim; the closure body is verified as a helper" % (m.group(1), m.group(2).strip()))
     return closures
+
+
+# ----------------------------------------------------------------------------
+# R2: task::block_on(async { B })  ->  task::block_on(lifted(captures..)) + `async fn lifted(captures..) { B }`
+# ----------------------------------------------------------------------------
+
+def r2_lift_block_on(w, unit, lifted_name, captures, ret_type, world=True, props=()):
+    """captures: [(name, type_text)].  Returns the Woven of the lifted async fn (already appended to the unit)."""
+    from .weaver import Woven, Extracted
+    h = re.search(r"\btask::block_on\s*\(\s*async(\s+move)?\s*\{", w.mbody)
+    if not h or len(re.findall(r"\btask::block_on\s*\(", w.mbody)) != 1:
+        raise LostAnchor("task::block_on(async { .. }) not found exactly once in %s" % w.qual())
+    ob = h.end() - 1
+    cb = lexer.match_close(w.body, ob)
+    m2 = re.compile(r"\s*\)").match(w.mbody, cb + 1)
+    if not m2:
+        raise LostAnchor("block_on shape in %s" % w.qual())
+    block = w.body[ob:cb + 1]
+    for name, _ in captures:
+        if not re.search(r"\b%s\b" % re.escape(name), lexer.mask(block)):
+            raise LostAnchor("capture %s not used in the async block of %s" % (name, w.qual()))
+    args = ", ".join(n for n, _ in captures) + (", " + WORLD_ARG if world else "")
+    po = w.mbody.index("(", h.start())
+    w.replace(po + 1, cb + 1, "%s(%s)" % (lifted_name, args), "R2", "async block lifted to async fn %s (captures: %s)" % (lifted_name, ", ".join(n for n, _ in captures)))
+    ex = w.ex
+    sub = Extracted(ex.rel, ex.file_text, ex.body_open + ob, ex.body_open + ob, ex.body_open + ob, ex.body_open + cb)
+    sub.line = lexer.line_of(ex.file_text, ex.body_open + ob)
+    params = ", ".join("%s: %s" % (n, t) for n, t in captures)
+    sub.header = "async fn %s(%s) -> %s" % (lifted_name, params, ret_type)
+    lw = Woven(sub, unit)
+    lw.emit_name = lifted_name
+    lw.owner = getattr(w, "owner", None)
+    lw.props = set(props or w.props)
+    lw.applied.append(("R2", "body of the async block passed to task::block_on in %s" % w.qual()))
+    unit.fns.append(lw)
+    unit.chunks.append(("fn", lw))
+    return lw
+
+
+def r10_mono(w, mapping):
+    """R10: substitute generic names (`ProcessorType::` -> concrete) in the body."""
+    n = 0
+    for gen, conc in mapping.items():
+        for h in re.finditer(r"\b%s\b" % re.escape(gen), w.mbody):
+            w.replace(h.start(), h.end(), conc, "R10", "monomorphised %s := %s" % (gen, conc))
+            n += 1
+    return n
+
+
+def r9_stop_poll(w, receivers):
+    """`X.load(Ordering::Relaxed)` on the stop flag -> stop_poll(&X, Tracked(w)) (nondeterministic, records stop_seen)."""
+    n = 0
+    for r in receivers:
+        for h in re.finditer(r"(?<![\w\.])%s\s*\.load\s*\(" % re.escape(r).replace(r"\.", r"\s*\.\s*"), w.mbody):
+            po = h.end() - 1
+            pc = lexer.match_close(w.body, po)
+            w.replace(h.start(), pc + 1, "stop_poll(&%s, Tracked(w))" % r, "R9", "stop flag poll: nondeterministic value, recorded in ghost stop_seen")
+            n += 1
+    return n
